@@ -2239,26 +2239,34 @@ isal_inflate(struct inflate_state *state)
         int ret = 0;
 
         if (!state->wrapper_flag && state->crc_flag == IGZIP_GZIP) {
-                struct isal_gzip_header gz_hdr;
+                /* The header reader keeps its resume state (flags, running header
+                 * crc, extra length) in the header structure, so the structure has
+                 * to survive between calls when the header arrives in pieces. The
+                 * Huffman decode tables are not used before the wrapper has been
+                 * parsed: borrow their space. */
+                struct isal_gzip_header *gz_hdr = (struct isal_gzip_header *) &state->lit_huff_code;
 
-                isal_gzip_header_init(&gz_hdr);
-                ret = isal_read_gzip_header(state, &gz_hdr);
+                if (state->block_state == ISAL_BLOCK_NEW_HDR && state->tmp_in_size == 0)
+                        isal_gzip_header_init(gz_hdr);
+                ret = isal_read_gzip_header(state, gz_hdr);
                 if (ret < 0)
                         return ret;
                 else if (ret > 0)
                         return ISAL_DECOMP_OK;
         } else if (!state->wrapper_flag && state->crc_flag == IGZIP_ZLIB) {
-                struct isal_zlib_header z_hdr;
+                /* As above: dict_flag has to survive a split before the DICTID */
+                struct isal_zlib_header *z_hdr = (struct isal_zlib_header *) &state->lit_huff_code;
 
-                isal_zlib_header_init(&z_hdr);
-                ret = isal_read_zlib_header(state, &z_hdr);
+                if (state->block_state == ISAL_BLOCK_NEW_HDR && state->tmp_in_size == 0)
+                        isal_zlib_header_init(z_hdr);
+                ret = isal_read_zlib_header(state, z_hdr);
                 if (ret < 0)
                         return ret;
                 else if (ret > 0)
                         return ISAL_DECOMP_OK;
 
-                if (z_hdr.dict_flag) {
-                        state->dict_id = z_hdr.dict_id;
+                if (z_hdr->dict_flag) {
+                        state->dict_id = z_hdr->dict_id;
                         return ISAL_NEED_DICT;
                 }
         } else if (state->block_state == ISAL_CHECKSUM_CHECK) {
